@@ -1,17 +1,64 @@
 """C06 — garbage collection removes exactly the unused objects and never a used one (gc.py)."""
+import hashlib
+import json
 import os
 
 from . import stores
 from .util import safe_call
 
+# algorithms a store may be configured with (`hash_name`) besides the usual md5 flavours: every fixed-length hashlib
+# algorithm is in dvc_data.hashfile.hash.algorithms_available. Objects and the entries of directory listings are then
+# keyed by that name.
+ALGOS = ["sha256", "sha256", "sha1", "sha512", "blake2b", "sha3_256", "md5", "md5-dos2unix"]
 
-def gen_case(rng):
+
+def _hexdigest(algo, data: bytes) -> str:
+    return hashlib.new("md5" if algo == "md5-dos2unix" else algo, data).hexdigest()
+
+
+def _entry_key(algo) -> str:
+    """the field of a listing entry that carries the hash (Tree.as_list: the algorithm's name; 'md5' for md5-dos2unix)"""
+    return "md5" if algo == "md5-dos2unix" else algo
+
+
+def _tree_bytes(entries, key_name, style="canonical"):
+    """listing bytes of a directory object whose entries are keyed by `key_name`; `style` varies the JSON layout only"""
+    lst = sorted(({key_name: v, "relpath": "/".join(k)} for k, v in entries.items()), key=lambda e: e["relpath"])
+    if style == "compact":
+        return json.dumps(lst, sort_keys=True, separators=(",", ":")).encode()
+    if style == "relpath_first":
+        return json.dumps([{"relpath": e["relpath"], key_name: e[key_name]} for e in lst]).encode()
+    return json.dumps(lst, sort_keys=True).encode()
+
+
+def rekey_universe(uni, algo, style="canonical"):
+    """the same files and directory shapes, named by `algo` instead of md5"""
+    out = stores.Universe.__new__(stores.Universe)
+    ren = {o: _hexdigest(algo, b) for o, b in uni.files.items()}
+    out.files = {ren[o]: b for o, b in uni.files.items()}
+    out.trees, out.tree_raw = {}, {}
+    for ents in uni.trees.values():
+        e = {k: ren[v] for k, v in ents.items()}
+        raw = _tree_bytes(e, _entry_key(algo), style)
+        oid = _hexdigest(algo, raw) + ".dir"
+        out.trees[oid] = e
+        out.tree_raw[oid] = raw
+    return out
+
+
+def gen_case(rng, algo=None):
+    """algo=None: the md5 flavours (the original family, same random draws); otherwise a store configured with `algo`"""
     uni = stores.Universe(rng)
+    style = None
+    if algo is not None:
+        style = rng.choice(["canonical", "canonical", "library", "compact", "relpath_first"])
+        uni = rekey_universe(uni, algo, "canonical" if style == "library" else style)
     all_oids = uni.all_oids()
     in_store = [o for o in all_oids if rng.random() < (0.9 if o.endswith(".dir") else 0.75)]
     separate_cache = rng.random() < 0.35
     in_cache = [o for o in uni.trees if rng.random() < 0.8] if separate_cache else None
-    hash_name = rng.choice(["md5", "md5", "md5-dos2unix"])
+    hash_name = rng.choice(["md5", "md5", "md5-dos2unix"]) if algo is None else algo
+    foreign = [n for n in ("md5", "md5-dos2unix", "etag", "sha256", "sha1", "checksum") if n != hash_name]
     used = []
     for o in all_oids:
         r = rng.random()
@@ -19,16 +66,16 @@ def gen_case(rng):
             used.append([hash_name, o])
             if rng.random() < 0.25:
                 # the very same value is also in use under another algorithm name (binary content has one md5 in both flavours)
-                used.append([rng.choice(["md5-dos2unix" if hash_name == "md5" else "md5", "etag"]), o])
+                used.append([rng.choice(["md5-dos2unix" if hash_name == "md5" else "md5", "etag"] if algo is None else foreign), o])
             if rng.random() < 0.15:
                 used.append([hash_name, o])  # plain duplicates
         elif r < 0.5:
-            other = rng.choice(["sha256", "md5-dos2unix" if hash_name == "md5" else "md5", "etag"])
+            other = rng.choice(["sha256", "md5-dos2unix" if hash_name == "md5" else "md5", "etag"] if algo is None else foreign)
             used.append([other, o])
     for _ in range(rng.randrange(0, 3)):
-        used.append([hash_name, stores.md5hex(b"absent-%d" % rng.randrange(1000)) + rng.choice(["", ".dir"])])
+        used.append([hash_name, _hexdigest(hash_name, b"absent-%d" % rng.randrange(1000)) + rng.choice(["", ".dir"])])
     rng.shuffle(used)
-    return {
+    case = {
         "files": {k: v.decode() for k, v in uni.files.items()},
         "trees": {d: {"/".join(k): v for k, v in e.items()} for d, e in uni.trees.items()},
         "store": in_store, "cache": in_cache, "hash_name": hash_name, "used": used,
@@ -36,15 +83,38 @@ def gen_case(rng):
         "read_only": rng.random() < 0.08,
         # leftovers of DVC 1.x next to directory objects of a local store (`<oid>.unpacked/`): gc removes them with the object
         "unpacked": [o for o in in_store if o.endswith(".dir") and rng.random() < 0.4],
-    }, uni
+    }
+    if algo is not None:
+        # "library": the listings in the store are written by the library itself (Tree.add + as_bytes) rather than by the harness
+        case["algo"] = algo
+        case["listing_style"] = style
+        case["shallow"] = rng.random() < 0.3
+        case["dry"] = rng.random() < 0.25
+    return case, uni
 
 
 def rebuild_universe(case):
     uni = stores.Universe.__new__(stores.Universe)
     uni.files = {k: v.encode() for k, v in case["files"].items()}
     uni.trees = {d: {tuple(k.split("/")): v for k, v in e.items()} for d, e in case["trees"].items()}
-    uni.tree_raw = {d: stores.tree_bytes(e) for d, e in uni.trees.items()}
+    if case.get("algo") is None:
+        uni.tree_raw = {d: stores.tree_bytes(e) for d, e in uni.trees.items()}
+    else:
+        style = case.get("listing_style", "canonical")
+        uni.tree_raw = {d: _tree_bytes(e, _entry_key(case["algo"]), "canonical" if style == "library" else style) for d, e in uni.trees.items()}
     return uni
+
+
+def _library_listing(case, uni, oid):
+    """the bytes the library itself writes for this directory object (entries keyed by the store's algorithm)"""
+    from dvc_data.hashfile.hash_info import HashInfo
+    from dvc_data.hashfile.meta import Meta
+    from dvc_data.hashfile.tree import Tree
+
+    t = Tree()
+    for k, v in uni.trees[oid].items():
+        t.add(k, Meta(size=len(uni.files[v])), HashInfo(case["algo"], v))
+    return t.as_bytes()
 
 
 def run_impl(ctx, case, uni):
@@ -59,6 +129,11 @@ def run_impl(ctx, case, uni):
     if case["cache"] is not None:
         cache = stores.make_odb(os.path.join(root, "cache"), local=True, hash_name=case["hash_name"])
         stores.populate(cache, uni, case["cache"])
+    if case.get("listing_style") == "library":
+        for db, oids in ((odb, case["store"]), (cache, case["cache"] or [])):
+            for o in oids:
+                if o.endswith(".dir"):
+                    stores.put_raw(db.path, o, _library_listing(case, uni, o))
     for o in case.get("unpacked", []) if case["local"] else []:
         d = os.path.join(odb.path, o[:2], o[2:] + ".unpacked")
         os.makedirs(d, exist_ok=True)
@@ -113,6 +188,12 @@ def check(ctx, case, uni, ans):
     ctx.count("shallow=%s dry=%s" % (case["shallow"], case["dry"]))
     ctx.count("local=%s" % case["local"])
     ctx.count("separate_cache=%s" % (case["cache"] is not None))
+    if case.get("algo") is not None:
+        ctx.count("algo_store:" + case["algo"])
+        ctx.count("algo_listing:" + case["listing_style"])
+        if not case["shallow"] and not case["read_only"] and any(
+                n == case["hash_name"] and v in uni.trees and v in before for n, v in case["used"]):
+            ctx.count("algo_store_used_dir_expanded")
     model = dict(ans)
     if "store" in model:
         model["store"] = sorted(model["store"])
@@ -156,8 +237,8 @@ def model_req(case, uni, before=None):
             "unpacked": sorted(case.get("unpacked", [])) if case["local"] else []}
 
 
-def run_cases(ctx, n):
-    cases = [gen_case(ctx.rng) for _ in range(n)]
+def run_cases(ctx, n, algos=False):
+    cases = [gen_case(ctx.rng, ctx.rng.choice(ALGOS) if algos else None) for _ in range(n)]
     answers = ctx.driver.batch([model_req(c, u) for c, u in cases])
     for (c, u), a in zip(cases, answers):
         check(ctx, c, u, a)
@@ -167,15 +248,21 @@ def run(ctx):
     ctx.rule = (
         "stores holding a random 75% of a universe of 2-7 files and 1-4 directory objects with shared/repeated files; used sets "
         "mixing identifiers of the store's algorithm, of other algorithms, and absent identifiers; shallow/expanding x dry/real x "
-        "HashFileDB/LocalHashFileDB x separate cache store x read-only. non-trivial = >=2 objects in the store and >=1 used "
+        "HashFileDB/LocalHashFileDB x separate cache store x read-only. A second family (counters algo_store:*, algo_listing:*, "
+        "algo_store_used_dir_expanded) configures the store with another algorithm (hash_name in sha256, sha1, sha512, blake2b, "
+        "sha3_256, and the md5 flavours as control): objects named by that digest, listing entries keyed by that name, listings "
+        "in canonical / compact / relpath-first JSON or written by the library's own Tree.as_bytes, used sets mixing in "
+        "identifiers of foreign algorithms. non-trivial = >=2 objects in the store and >=1 used "
         "identifier of the store's algorithm; distinct = sha256 of the case"
     )
     ctx.assumptions = ["identifiers of directory objects end in '.dir'"]
     run_cases(ctx, ctx.n(300, 4000))
+    run_cases(ctx, ctx.n(150, 1500), algos=True)
 
 
 def search(ctx):
     run_cases(ctx, 4000)
+    run_cases(ctx, 1500, algos=True)
 
 
 def replay(ctx, payload):
